@@ -270,3 +270,31 @@ with open(os.path.join(outdir, 'StoreSrc.lean'), 'w') as f:
     for k, v in store_src.items():
         f.write('def storeSrc_%s : String := %s\n' % (k, lean_str(v)))
     f.write('\nend AnonModel.Gen\n')
+
+# --------------------------------------------------------------------------- the proof-value codec's source
+# bodies of the four two-line wrappers `Model/Msgpack.lean` and `Model/Base64.lean` were written against, the multibase header
+# literal, and the bodies of `format::base64_msgpack::serialize` / the visitor's `visit_str` (the order of the three layers)
+def fn_body_g(rel, name):
+    """as fn_body, for signatures whose generic parameters nest angle brackets"""
+    src = strip_comments(open(os.path.join(repo, rel)).read())
+    m = re.search(r'fn\s+%s\s*(?:<[^(]*>)?\s*\([^)]*\)[^{]*\{' % name, src)
+    if not m: return ''
+    end = match_brace(src, m.end() - 1)
+    return re.sub(r'\s+', '', src[m.end():end - 1])
+
+wire_src = {
+    'mp_encode': fn_body('src/utils/msg_pack.rs', 'encode'),
+    'mp_decode': fn_body('src/utils/msg_pack.rs', 'decode'),
+    'b64_encode': fn_body_g('src/utils/base64.rs', 'encode'),
+    'b64_decode': fn_body_g('src/utils/base64.rs', 'decode'),
+    'fmt_serialize': fn_body('src/data_types/w3c/format.rs', 'serialize'),
+    'fmt_visit_str': fn_body('src/data_types/w3c/format.rs', 'visit_str'),
+}
+_fmt = strip_comments(open(os.path.join(repo, 'src/data_types/w3c/format.rs')).read())
+_m = re.search(r'const\s+BASE_HEADER\s*:\s*&str\s*=\s*"([^"]*)"', _fmt)
+with open(os.path.join(outdir, 'WireSrc.lean'), 'w') as f:
+    f.write('/-! GENERATED by tools/extract.py: bodies (whitespace and comments removed) of the proof-value codec wrappers `Model/Msgpack.lean`, `Model/Base64.lean` model — do not edit. -/\nnamespace AnonModel.Gen\n\n')
+    for k, v in wire_src.items():
+        f.write('def wireSrc_%s : String := %s\n' % (k, lean_str(v)))
+    f.write('def wireBaseHeader : String := %s\n' % lean_str(_m.group(1) if _m else ''))
+    f.write('\nend AnonModel.Gen\n')
